@@ -48,6 +48,10 @@ P = {
          "replay of the C01 universe on five sinks + SizeCalculator against the specification's bytes; MC_Prim.tla reader state machine (cursor semantics of every primitive read) checked by TLC and replayed on the three BinaryInput implementations",
          "sinks: every (type, value) of the built-in universe on Vec<u8>, BytesMut, serialize_to_bytes, serialize_to_byte_vec, a recording user-defined output (all byte-identical and equal to the spec) and SizeCalculator (exact length). sources: every script of <= 2 (quick) / 3 (thorough) primitive reads (fixed width, var_u32, var_i32, bytes / skip of 0, 1, 3 and usize::MAX) over every byte string of length <= 3 over the hostile alphabet: results, first InputEnded and cursor position identical to the model on SliceInput, OwnedInput and DeserializationContext.",
          "compressed blocks are C16's business"),
+ "C16": (True, "fault_enumeration", "6 C16",
+         "Compressed.tla (frame = var_u32(|d|) var_u32(|z|) z, reader, allocation rule) checked by TLC; trace validation: every frame the library writes and every read it performs is recorded and checked by TLC against Trace_Compressed.tla; payloads inflated by python zlib",
+         "8 contents (empty .. 256 KiB quick / 8 MiB thorough) x levels 0-9 x 3 sinks x 3 sources with a suffix; truncation at every byte of the header and near both payload ends and every 64th (7th) byte in between; bit flips in the first 64 bytes and both length varints rewritten to 7 values each: totality and the allocation bound max(64 KiB, 2 x bytes actually produced).",
+         "DEFLATE is not specified (opaque payload); python zlib is the independent payload oracle; on a failed read 'bytes actually produced' is measured by running an inflater over the same payload"),
  "C17": (True, "model_checking", "6 C17",
          "TLC invariant EncTotal on MC_EncTotal.tla (outcome of the reference encoder is Ok or the documented error class); replay under catch_unwind on every sink; exhaustive sweep of all Unicode scalar values; counts announced through exact size hints",
          "all 1 112 064 scalar values of char (encodable iff <= U+FFFF); unencodable characters nested in 7 container / record shapes (error propagates, every entry point hands back Err); dangling FieldMadeOptional -> UnknownFieldReferenceInEvolutionStep; a record with 254 declared steps; sequence counts i32::MAX / i32::MAX+1 / u32::MAX / u32::MAX+1; (thorough) a 2 GiB string and a 4 GiB byte vector; transient constructors in C14's universe.",
